@@ -68,8 +68,9 @@ def check_tiling(tiling, w, h, gx0, gy0, p2n, what):
     if area != w * h:
         raise Violation("cover", f"{what}: rectangles cover {area} pixels, the image has {w*h}")
     A = np.array(R)
-    if len(A) > 1:
-        # pairwise disjoint (with the area sum this implies exact cover)
+    if 1 < len(A) <= 3000:
+        # pairwise disjoint (with the area sum this implies exact cover); for thousands of rectangles disjointness already follows
+        # from what was checked above: distinct tiles, each rectangle inside its tile, one translation for all of them
         x0, y0, x1, y1 = A[:, 0], A[:, 1], A[:, 2], A[:, 3]
         ov = (np.minimum(x1[:, None], x1[None, :]) > np.maximum(x0[:, None], x0[None, :])) & (np.minimum(y1[:, None], y1[None, :]) > np.maximum(y0[:, None], y0[None, :]))
         np.fill_diagonal(ov, False)
@@ -93,7 +94,7 @@ def exec_axis(case):
 
     v = case["value"]
     n = 0
-    for o in BOUNDARY:
+    for o in case.get("others", BOUNDARY):
         w, h = (v, o) if case["axis"] == "w" else (o, v)
         what = f"StudyTiling({w}, {h})"
         with toasty_call("tiling", what):
@@ -104,7 +105,7 @@ def exec_axis(case):
             check_image_to_tile(t, w, h, gx0, gy0, what)
         n += 1
     nt = v % 256 != 0 or v > 256
-    return Outcome(classes=[case["axis"], "size<=256" if v <= 256 else ("size<=1024" if v <= 1024 else "size>1024")], nontrivial=nt, count=n)
+    return Outcome(classes=[case["axis"], "size<=256" if v <= 256 else ("size<=1024" if v <= 1024 else ("size>1024" if v <= 4200 else "size-around-2^12..2^20"))], nontrivial=nt, count=n)
 
 
 def enum_axis(tier):
@@ -112,6 +113,10 @@ def enum_axis(tier):
     for axis in ("w", "h"):
         for v in range(1, top + 1):
             yield {"axis": axis, "value": v}
+        # long thin images around every power of two up to 2^20 (scans, panoramas): the square, the centring and the partition
+        for k in range(12, 21):
+            for dv in (-1, 0, 1, 2, 3, 5, 2 ** (k - 1) + 1):
+                yield {"axis": axis, "value": 2**k + dv, "others": [1, 300]}
 
 
 def exec_sub(case):
@@ -270,6 +275,12 @@ def exec_io(case):
 
             pio = NestingIO(d, default_format=fmt, scheme=scheme)
         src = case.get("source", "array")
+        # the format the image itself carries (where it was loaded from): usually the pyramid's, but an image loaded from a FITS
+        # file may be tiled into an npy pyramid and an in-memory array (labelled png by default) into a FITS one
+        img_fmt = fmt if fmt != "png" else None
+        if case.get("image_format"):
+            img_fmt = case["image_format"]
+            fills.add("image-format-differs-from-the-pyramid's")
         wc = None
         if case.get("flipped"):
             from astropy.wcs import WCS
@@ -283,12 +294,12 @@ def exec_io(case):
             # a PIL-backed image, as the image loader produces for png / jpg inputs
             from PIL import Image as PILImage
 
-            img = Image.from_pil(PILImage.fromarray(arr.copy()), wcs=wc, default_format=fmt if fmt != "png" else None)
+            img = Image.from_pil(PILImage.fromarray(arr.copy()), wcs=wc, default_format=img_fmt)
             if src == "pil-cached":
                 img.asarray()
             fills.add("pil-backed")
         else:
-            img = Image.from_array(arr.copy(), wcs=wc, default_format=fmt if fmt != "png" else None)
+            img = Image.from_array(arr.copy(), wcs=wc, default_format=img_fmt)
         if case.get("flipped"):
             # the image was given a WCS and its parity was flipped before tiling (what `tile-study --fits-wcs` does):
             # the image to be reproduced is the image as it is now, rows reversed
@@ -389,6 +400,10 @@ def strat_io(draw, tier):
         case["source"] = draw(st.sampled_from(["array", "pil", "pil-cached"]))
     if draw(st.integers(0, 3)) == 0:
         case["flipped"] = draw(st.sampled_from(["flip", "ensure"]))
+    if draw(st.integers(0, 3)) == 0:
+        other = draw(st.sampled_from(["png", "npy", "fits"]))
+        if other != fmt:
+            case["image_format"] = other
     if draw(st.integers(0, 2)) == 0:
         W = draw(st.integers(w, max(w, 1100)))
         H = draw(st.integers(h, max(h, 1100)))
